@@ -106,11 +106,11 @@ def loop_order(imp, method, pred_re):
         raise ExtractError(f"{method}: other condvar wait form")
     n = norm(lb)
     forms = {
-        "cancel": r"if let Some\(reason\) = \w+\.cancelled\.clone\(\) \{ return [\w:]*\(?[\w:]*Cancelled\(reason\)\)?;? \}",
+        "cancel": r"if let Some\(reason\) = \w+\.cancelled\.clone\(\) \{ (?:[^{}]*; )?return [\w:]*\(?[\w:]*Cancelled\(reason\)\)?;? \}",
         "pred": pred_re,
         # any test that returns Timeout / any argument of the wait: WHICH test and WHICH argument is the
         # clock fact below
-        "deadline": r"if ([^{}]*) \{ return [\w:]*\(?[\w:]*Timeout\)?;? \}",
+        "deadline": r"if ([^{}]*) \{ (?:[^{}]*; )?return [\w:]*\(?[\w:]*Timeout\)?;? \}",
         "park": r"\. ?wait_timeout\( ?\w+, ?([^(),]*)\)",
     }
     pos, grp = {}, {}
@@ -146,8 +146,22 @@ def loop_order(imp, method, pred_re):
     mnow = re.search(r"let now = Instant::now\(\);", n)
     arg = grp["park"]
     arg_ok = arg == "deadline - now" or (arg == "timeout" and re.search(r"let timeout = deadline - now;", n) is not None)
+    # … and `deadline` itself must be the call's own: the `deadline: Instant` parameter (never re-bound), or the
+    # local `let deadline = Instant::now() + timeout;` computed from the call's `timeout` parameter before the
+    # loop.  A deadline read from shared state (a field that outlives the call) is the pessimistic fact too.
+    sig = re.search(r"\bfn\s+" + method + r"\s*\(([^)]*)\)", imp)
+    params = norm(sig.group(1)) if sig else ""
+    nb = norm(body)
+    binds = re.findall(r"let (?:mut )?deadline\b[^;]*;", nb)
+    if re.search(r"\bdeadline: Instant\b", params):
+        own_deadline = not binds
+    else:
+        own_deadline = (re.search(r"\btimeout: Duration\b", params) is not None
+                        and binds == ["let deadline = Instant::now() + timeout;"]
+                        and nb.find("let deadline = Instant::now() + timeout;") < nb.find("loop"))
     clock = (mnow is not None and mnow.start() < pos["deadline"] and grp["deadline"] == "now >= deadline" and arg_ok
-             and len(re.findall(r"Instant::now\(\)", n)) == 1)
+             and len(re.findall(r"Instant::now\(\)", n)) == 1 and own_deadline
+             and not re.search(r"\bdeadline\s*=[^=]", n))
     return [k for k, _ in sorted(pos.items(), key=lambda kv: kv[1])], atomic, clock
 
 
@@ -166,10 +180,10 @@ def extract():
             raise ExtractError(f"{method}: not exactly one lock region")
     facts["creditLoop"], facts["creditAtomic"], facts["creditClock"] = loop_order(
         imp, "wait_for_credit",
-        r"if in_flight == 0 \|\| [^{}]*window_bytes[^{}]*\{ return Ok\(\(\)\);? \}")
+        r"if in_flight == 0 \|\| [^{}]*window_bytes[^{}]*\{ (?:[^{}]*; )?return Ok\(\(\)\);? \}")
     facts["reconnectLoop"], facts["reconnectAtomic"], facts["reconnectClock"] = loop_order(
         imp, "wait_for_reconnect",
-        r"if let Some\(pending\) = \w+\.pending_resume\.take\(\) \{ return [\w:]*ResumeReady\(pending\);? \}")
+        r"if let Some\(pending\) = \w+\.pending_resume\.take\(\) \{ (?:[^{}]*; )?return [\w:]*ResumeReady\(pending\);? \}")
     cb = norm(fn_body(imp, "wait_for_credit"))
     if not re.search(r"let in_flight = \w+\.sent_offset\.saturating_sub\(\w+\.acked_offset\);", cb):
         raise ExtractError("wait_for_credit: in_flight is not sent_offset.saturating_sub(acked_offset)")
